@@ -530,3 +530,33 @@ func vAddSPKINull(c *vCert) *vCert {
 	n.label = c.label + " (SPKI with explicit NULL)"
 	return n
 }
+
+// vLaxSerial re-issues c with a serial number in non-minimal DER (`02 03 00 7B nn`): the strict parser refuses it,
+// the lax fallback of x509.ParseCertificate accepts it with a non-fatal error.
+func vLaxSerial(c *vCert, n byte) *vCert {
+	fields := vTBSFields(c)
+	at := 0
+	if fields[0].tag == 0xa0 {
+		at = 1
+	}
+	fields[at] = c01TLV{full: []byte{0x02, 0x03, 0x00, 0x7b, n}}
+	r := vResign(c, c01Wrap(0x30, vJoin(fields)))
+	r.label = c.label + " (lax-only serial)"
+	return r
+}
+
+// vFlipSig returns a copy of c with the same TBSCertificate and a different signatureValue (last byte flipped): another
+// certificate (other Raw) whose signature no longer verifies.
+func vFlipSig(c *vCert) *vCert {
+	der := append([]byte{}, c.der...)
+	der[len(der)-1] ^= 0x01
+	pc, err := x509.ParseCertificate(der)
+	if x509.IsFatal(err) || pc == nil {
+		der[len(der)-1] ^= 0x03
+		pc, err = x509.ParseCertificate(der)
+		if x509.IsFatal(err) || pc == nil {
+			panic("vFlipSig: " + c.label)
+		}
+	}
+	return &vCert{der: der, c: pc, key: c.key, issuer: c.issuer, label: c.label + " (signature bytes altered)", spec: c.spec}
+}
